@@ -444,7 +444,19 @@ def rule_module_state(ctx, repo, mods, R, report=True, owners=STATE_OWNERS):
                 is_global_here = any(isinstance(n, ast.Global) and g in n.names for n in walk_no_nested(fi.node))
                 if g in locals_ and not is_global_here:
                     continue  # shadowed by a local
-                sites = fx.mutation_sites(fi, {g: g})
+                # the table itself, and local names that are just another name for it (t = TABLE; t.append(..))
+                galias = {g: g}
+                grow = True
+                while grow:
+                    grow = False
+                    for n in walk_no_nested(fi.node):
+                        if isinstance(n, ast.Assign) and len(n.targets) == 1 and isinstance(n.targets[0], ast.Name) and n.targets[0].id not in galias:
+                            v_ = n.value
+                            srcs = [v_] if isinstance(v_, ast.Name) else ([v_.body, v_.orelse] if isinstance(v_, ast.IfExp) else (list(v_.values) if isinstance(v_, ast.BoolOp) else []))
+                            if any(isinstance(x, ast.Name) and x.id in galias for x in srcs):
+                                galias[n.targets[0].id] = g
+                                grow = True
+                sites = fx.mutation_sites(fi, galias)
                 rebinds = is_global_here and any(isinstance(n, ast.Name) and n.id == g and isinstance(n.ctx, ast.Store) for n in walk_no_nested(fi.node))
                 # handing the table to a helper that edits the parameter it gets is writing it, too
                 via_helper = False
